@@ -1,6 +1,6 @@
 #!/bin/bash
 # seed_round.sh <prop> <n> [check-prop]: confirm a seeded change (compact summary) and run the quick check against the patched worktree
-p=$1; n=$2; cp=${3:-$1}; d=/tmp/seed-out/$p/$n
+p=$1; n=$2; cp=${3:-$1}; d=${SEED_OUT:-/tmp/seed-out}/$p/$n
 if [ ! -f $d/confirm.txt ]; then /verif/tools/seed_confirm.sh $p $n; fi
 python3 - $d/confirm.txt <<'PY'
 import sys,re
